@@ -258,3 +258,45 @@ package fit
 //@   ensures [clean-eof-only] iserr(err, errReadSize) ==> cleanEnd(d.r, old(pos(d.r))) && pos(d.r) == old(pos(d.r))
 //@   ensures [clean-eof-reported] cleanEnd(d.r, old(pos(d.r))) ==> iserr(err, errReadSize)
 //@   assigns d.h.Size, d.h.ProtocolVersion, d.h.ProfileVersion, d.h.DataSize, d.h.DataType, d.h.CRC, d.tmp[..], pos(d.r), dyncrc16.GhostSum(d.crc)
+
+//@@ ------------------------------------------------------------------ profile lookups and definition validation
+
+//@ spec pf(m MesgNum, n byte) *field := ite(int(m) < len(_fields), _fields[m][n], nil)
+//@ pred pfound(m MesgNum, n byte) := pf(m, n) != nil
+
+//@@ Conditions under which parseFitField meets the preconditions of reflect and
+//@@ encoding/binary for a scalar native field (class/width from the struct type).
+//@ pred scalarOK(bt types.Base, size byte, cls int, wid int) :=
+//@  | ((bt == types.BaseByte || bt == types.BaseEnum || bt == types.BaseUint8 || bt == types.BaseUint8z) ==> cls == 1) &&
+//@  | (bt == types.BaseSint8 ==> cls == 2) &&
+//@  | (bt == types.BaseSint16 ==> cls == 2 && size >= 2) &&
+//@  | ((bt == types.BaseUint16 || bt == types.BaseUint16z) ==> cls == 1 && size >= 2) &&
+//@  | (bt == types.BaseSint32 ==> cls == 2 && size >= 4) &&
+//@  | ((bt == types.BaseUint32 || bt == types.BaseUint32z) ==> cls == 1 && size >= 4) &&
+//@  | (bt == types.BaseFloat32 ==> cls == 3 && size >= 4) &&
+//@  | (bt == types.BaseFloat64 ==> cls == 3 && size >= 8) &&
+//@  | (bt == types.BaseString ==> cls == 4)
+//@ pred arrayOK(bt types.Base, size byte, cls int, ecls int, ewid int, ttag int) :=
+//@  | cls == 5 &&
+//@  | (bt == types.BaseByte ==> ecls == 1 && ewid == 8) &&
+//@  | (bt != types.BaseByte && bt != types.BaseString ==> int(size)%bt.Size() == 0) &&
+//@  | ((bt == types.BaseEnum || bt == types.BaseUint8 || bt == types.BaseUint8z || bt == types.BaseUint16 || bt == types.BaseUint16z || bt == types.BaseUint32 || bt == types.BaseUint32z) ==> ecls == 1) &&
+//@  | ((bt == types.BaseSint8 || bt == types.BaseSint16 || bt == types.BaseSint32) ==> ecls == 2) &&
+//@  | ((bt == types.BaseFloat32 || bt == types.BaseFloat64) ==> ecls == 3) &&
+//@  | (bt == types.BaseString && size != 0 ==> ttag == typetag[[]string]())
+//@ pred fieldOK(m MesgNum, fd fieldDef, p *field) :=
+//@  | 0 <= p.sindex && p.sindex < rvNumField(int(m)) && p.t.Kind() <= 4 &&
+//@  | (p.t.Kind() == types.NativeFit && !p.t.Array() ==> scalarOK(fd.btype, fd.size, rvClass(int(m), p.sindex), rvWidth(int(m), p.sindex))) &&
+//@  | (p.t.Kind() == types.NativeFit && p.t.Array() ==> arrayOK(fd.btype, fd.size, rvClass(int(m), p.sindex), rvEClass(int(m), p.sindex), rvEWidth(int(m), p.sindex), rvTypeTag(int(m), p.sindex))) &&
+//@  | (p.t.Kind() != types.NativeFit ==> !p.t.Array() && fd.btype != types.BaseString && p.t.BaseType() != types.BaseString && p.t.BaseType().Size() == 4 && 1 <= fd.size && fd.size <= 4) &&
+//@  | ((p.t.Kind() == types.TimeUTC || p.t.Kind() == types.TimeLocal) ==> rvTypeTag(int(m), p.sindex) == typetag[time.Time]()) &&
+//@  | (p.t.Kind() == types.Lat ==> rvTypeTag(int(m), p.sindex) == typetag[Latitude]()) &&
+//@  | (p.t.Kind() == types.Lng ==> rvTypeTag(int(m), p.sindex) == typetag[Longitude]())
+//@@ compat: the weakest condition on a (message, field definition) pair under which the data parser is safe
+//@ pred compat(m MesgNum, fd fieldDef) := fd.btype.Known() && (fd.btype != types.BaseString ==> int(fd.size) >= fd.btype.Size()) && (knownMsgNums[m] && pfound(m, fd.num) ==> fieldOK(m, fd, pf(m, fd.num)))
+
+//@ func (d *decoder) validateFieldDef(gmsgnum MesgNum, dfield fieldDef) (err error)
+//@   props C01
+//@   split profile gmsgnum dfield.num
+//@   ensures [compat] err == nil ==> compat(gmsgnum, dfield)
+//@   assigns nothing
